@@ -240,10 +240,16 @@ def build_stmt(slot, d, t, o):
     if slot == 23:  # conflict target with its own WHERE + DO UPDATE ... WHERE
         return (Q.into(t).insert(1, 2).on_conflict(F(t, "a")).where(F(t, "e") > 0).do_update(F(t, "b"), F(t, "c") + 1)
                 .where(F(t, "d") == 1))
+    if slot == 24:  # subquery over the table joined with ON
+        sub = QS[0].from_(t).select(F(t, "a")).as_("sq")
+        return Q.from_(o).join(sub).on(F(o, "a") == Field("a", table=sub)).select(F(o, "b"))
+    if slot == 25:  # subquery over the table joined with USING
+        sub = QS[0].from_(t).select(F(t, "a")).as_("sq")
+        return Q.from_(o).join(sub).using("a").select(F(o, "b"))
     raise AssertionError(slot)
 
 
-NSLOT = 24
+NSLOT = 26
 
 
 @harness(
@@ -252,7 +258,7 @@ NSLOT = 24
     bounds={"quick": {"L": 1}, "thorough": {"L": 2}},
     timeout={"quick": 300, "thorough": 1500},
     witness=[dict(slot=0, d=0, p=0, s="n"), dict(slot=11, d=2, p=3, s="n")],
-    doc="24 clause slots of SELECT / INSERT / UPDATE / DELETE / upsert statements, generic and PostgreSQL builders, x "
+    doc="26 clause slots of SELECT / INSERT / UPDATE / DELETE / upsert statements, generic and PostgreSQL builders, x "
         "table-pair shapes 0..3 x any new table name",
 )
 def c16_statements(slot: int, d: int, p: int, s: str) -> int:
